@@ -108,6 +108,14 @@ CLAIMED["C13"] = ("Inventory clause: every variable with static storage in the p
     "who-may-write inventory over all units: stores and address escapes of globals resolved through one level of callee write summaries and const-ness of external parameters",
     "3 C13")
 
+CLAIMED["C11"] = ("Atomicity by construction: (a) no path in the whole-program call graph from the lock/unlock/signal/start/join/terminate/"
+    "sleep/scheduler primitives reaches a VM entry point or an unresolved indirect call once the collector's finalizer edge is cut - pre-emption "
+    "happens only in the VM loop, so these primitives are atomic; (b) the cut is justified on every run: no installed finalizer reaches the VM "
+    "or the allocator except the port finalizer's flush, which is confined to the closed-port arms (openp cleared before the flush, tested "
+    "before the custom/string-port arms). A necessary condition of mutual exclusion; lost wake-ups, fairness and schedule independence are not decided.",
+    "whole-program call-graph reachability with function-pointer flow (per struct field / parameter); dominance side conditions justifying the cut edge",
+    "3 C11")
+
 # properties planned in DESIGN.md but whose checks are not built yet are listed
 # as not applicable *for now* with that reason, so the manifest never over-claims
 PENDING = {}
